@@ -368,8 +368,8 @@ def explore_all(run, pid, tier, years=(2021, 2022, 2023), depth_quick=1, depth_t
                 continue
             if tier == 'thorough':
                 depth = depth_thorough
-                if depth >= 2 and bases is None and not (base.name == 'B0-single-wage' or (year == 2023 and base.name in QUICK_BASES)):
-                    depth = 1      # two deviations on B0 (all years) and on the five quick bases of 2023; one elsewhere
+                if depth >= 2 and bases is None and not (base.name == 'B0-single-wage' or (year == 2023 and base.name in ('B2-investor', 'B6-nc'))):
+                    depth = 1      # two deviations on B0 (all years) and on B2 / B6 of 2023; one elsewhere
             else:
                 depth = depth_quick
                 if bases is None and base.name not in (quick_bases or QUICK_BASES):
